@@ -1,5 +1,6 @@
 import AcraModel.Envelope.Detector
 import AcraModel.Envelope.ContainerLemmas
+import AcraModel.Envelope.BlockLemmas
 /-!
 # C01 — protect-then-reveal returns the original bytes for the owning client
 
@@ -51,5 +52,98 @@ theorem container_roundtrip (e : Bytes) (id : UInt8) (he : e ≠ []) (hlen : e.l
     exact c01_deserialize_ser suffix he hk (by omega)
   · intro suffix
     exact c01_extractContainer_ser suffix he hk hlen
+
+/-! ## AcraBlock (symmetric envelope), library calls -/
+
+/-- With 32-byte hashes the key id stored in an AcraBlock really is 2 bytes. -/
+theorem keyId_length (c : CryptoOps) (hh : HashLen c) (key ctx : Bytes) : (keyId c key ctx).length = 2 := by
+  unfold keyId
+  rw [List.length_take, hh.sha_len]
+  decide
+
+/-- `CreateAcraBlock` succeeds for every non-empty message below the 4 GiB limit of the AEAD, every
+non-empty key and every context, as soon as the random source delivers its 56 bytes. -/
+theorem block_create_total (c : CryptoOps) (hs : SealLaws c) (key ctx m rnd : Bytes)
+    (hkey : key ≠ []) (hm : m ≠ []) (hml : m.length < maxMsgLen) (hr : 56 ≤ rnd.length) :
+    ∃ b, createBlock c key ctx m rnd = .ok b := by
+  have hn : nonceLen = 12 := rfl
+  have hmax : maxMsgLen = 2^32 := rfl
+  have h1 : c.enc (rnd.take 32) ctx m ((rnd.drop 32).take 12) ≠ none := by
+    intro h
+    rcases (hs.enc_none _ _ _ _).mp h with h | h | h | h
+    · exact hm h
+    · have := congrArg List.length h
+      rw [List.length_take, List.length_nil] at this
+      omega
+    · simp [hn] at h; omega
+    · omega
+  have h2 : c.enc key ctx (rnd.take 32) ((rnd.drop 44).take 12) ≠ none := by
+    intro h
+    rcases (hs.enc_none _ _ _ _).mp h with h | h | h | h
+    · have := congrArg List.length h
+      rw [List.length_take, List.length_nil] at this
+      omega
+    · exact hkey h
+    · simp [hn] at h; omega
+    · simp [hmax] at h; omega
+  cases h1' : c.enc (rnd.take 32) ctx m ((rnd.drop 32).take 12) with
+  | none => exact absurd h1' h1
+  | some encData =>
+    cases h2' : c.enc key ctx (rnd.take 32) ((rnd.drop 44).take 12) with
+    | none => exact absurd h2' h2
+    | some encKey =>
+      refine ⟨buildBlock (keyId c key ctx) encKey encData, ?_⟩
+      unfold createBlock
+      simp only [h1', h2']
+
+/-- AcraBlock round trip through the library calls. If `CreateAcraBlock` produced `b` for message `m`
+under `key` and context `ctx` (by `block_create_total` it does for every non-empty `m` below 4 GiB),
+then (1) `ExtractAcraBlockFromData` finds exactly `b` at the start of `b` followed by arbitrary bytes,
+and (2) `AcraBlock.Decrypt` with ANY key list that contains `key` returns exactly `m`, provided every
+key listed before it either has a different 2-byte key id or does not unseal the wrapped data key.
+Without key commitment nothing more can be said about earlier keys (an AEAD may accept a ciphertext
+under two keys); this hypothesis is exactly the "id collides: try, and on failure go on to the next
+key" logic of the code. `hkid` follows from `HashLen c` (`keyId_length`); the two length hypotheses
+follow from `SealLen c` and are explicit so that the theorem also applies to instances with key
+commitment. They are needed: an instance whose ciphertexts have 2^64 bytes or whose wrapped key has
+65536 bytes satisfies `SealLaws`, but the 8-byte resp. 2-byte length fields would wrap around.
+(`key ≠ []`, `m ≠ []`, `m.length < maxMsgLen`, `56 ≤ rnd.length` are implied by `hc`.) -/
+theorem block_roundtrip (c : CryptoOps) (hs : SealLaws c) (key ctx m rnd b : Bytes) (pre post : List Bytes)
+    (hkid : (keyId c key ctx).length = 2)
+    (hEncKey : ∀ encKey, c.enc key ctx (rnd.take 32) ((rnd.drop 44).take 12) = some encKey → encKey.length < 65536)
+    (hblen : b.length < 2^64)
+    (hc : createBlock c key ctx m rnd = .ok b)
+    (hpre : ∀ k' ∈ pre, ∀ encKey, c.enc key ctx (rnd.take 32) ((rnd.drop 44).take 12) = some encKey →
+      keyId c k' ctx = keyId c key ctx → c.dec k' ctx encKey = none) :
+    (∀ suffix, extractBlock (b ++ suffix) = .ok (b.length, b)) ∧
+    decryptBlock c (pre ++ key :: post) ctx b = .ok m := by
+  obtain ⟨encData, encKey, h1, h2, rfl⟩ := c01_createBlock_ok hc
+  refine ⟨fun suffix => c01_extractBlock_build _ _ _ suffix hkid hblen, ?_⟩
+  exact c01_decryptBlock_build c hs key ctx _ m encKey encData _ _ pre post hkid (hEncKey _ h2) h1 h2
+    (fun k' hk' hid => Or.inl (hpre k' hk' encKey h2 hid))
+
+/-- AcraBlock round trip under key commitment (`SealCommit`; deliberately no length law, see
+`Crypto/Ops.lean`): a ciphertext is accepted under one key only, so nothing has to be assumed about
+the other keys – ANY key list that contains the writer's key, at any position and with any other
+keys (colliding 2-byte ids included) before it, decrypts the block to exactly `m`. -/
+theorem block_roundtrip_commit (c : CryptoOps) (hs : SealLaws c) (hcm : SealCommit c)
+    (key ctx m rnd b : Bytes) (keys : List Bytes)
+    (hkid : (keyId c key ctx).length = 2)
+    (hEncKey : ∀ encKey, c.enc key ctx (rnd.take 32) ((rnd.drop 44).take 12) = some encKey → encKey.length < 65536)
+    (hblen : b.length < 2^64)
+    (hc : createBlock c key ctx m rnd = .ok b) (hmem : key ∈ keys) :
+    (∀ suffix, extractBlock (b ++ suffix) = .ok (b.length, b)) ∧
+    decryptBlock c keys ctx b = .ok m := by
+  obtain ⟨encData, encKey, h1, h2, rfl⟩ := c01_createBlock_ok hc
+  refine ⟨fun suffix => c01_extractBlock_build _ _ _ suffix hkid hblen, ?_⟩
+  obtain ⟨pre, post, rfl⟩ := List.append_of_mem hmem
+  refine c01_decryptBlock_build c hs key ctx _ m encKey encData _ _ pre post hkid (hEncKey _ h2) h1 h2 ?_
+  intro k' _ _
+  cases hd : c.dec k' ctx encKey with
+  | none => exact Or.inl rfl
+  | some d =>
+    obtain ⟨n, _, hn⟩ := hs.enc_of_dec _ _ _ _ hd
+    obtain ⟨_, _, hdd⟩ := hcm.enc_inj _ _ _ _ _ _ _ _ _ hn h2
+    exact Or.inr (by rw [hdd])
 
 end AcraModel.Props.C01
